@@ -33,5 +33,46 @@ fn main() {
             println!("{n} {name}: long={a:?} short={b:?} number={c:?} lower={d:?}");
         } }
     }
+    // C19 (exhaustive over every signal number nix knows, three spellings x three letter cases, plus the documented Windows control names), on the
+    // REAL parser and printer: display form parses back to the same OS signal; number, SIG name and short name agree (the documented control names
+    // take precedence over the unix SHORT name only)
+    if arg == "names" {
+        use watchexec_signals::Signal as S;
+        let mut n_checked = 0;
+        let control_shorts = ["STOP", "KILL", "C", "CLOSE", "BREAK"];
+        let mixed = |s: &str| s.chars().enumerate().map(|(i, c)| if i % 2 == 0 { c.to_ascii_lowercase() } else { c.to_ascii_uppercase() }).collect::<String>();
+        for n in 1i32..=64 { if let Ok(sig) = Nix::try_from(n) {
+            let name = sig.as_str();
+            let by_number = S::from_str(&n.to_string()).ok();
+            match by_number.and_then(|s| s.to_nix()) { Some(x) if x == sig => {}, other => bad.push(format!("number {n} parses to {by_number:?} whose OS signal is {other:?}, not {name}")) }
+            for spelling in [name.to_string(), name.to_ascii_lowercase(), mixed(name)] {
+                let got = S::from_str(&spelling).ok(); n_checked += 1;
+                if got.and_then(|s| s.to_nix()) != Some(sig) { bad.push(format!("`{spelling}` parses to {got:?}, but `{n}` parses to {by_number:?} ({name})")); }
+            }
+            let short = &name[3..];
+            if !control_shorts.contains(&short) {
+                for spelling in [short.to_string(), short.to_ascii_lowercase(), mixed(short)] {
+                    let got = S::from_str(&spelling).ok(); n_checked += 1;
+                    if got.and_then(|s| s.to_nix()) != Some(sig) { bad.push(format!("short name `{spelling}` parses to {got:?}, but `{n}` parses to {by_number:?} ({name})")); }
+                }
+            }
+            // display round trip for the value the number parses to, and for Custom(n)
+            for v in [by_number, Some(S::Custom(n))].into_iter().flatten() {
+                let shown = v.to_string(); let back = S::from_str(&shown).ok(); n_checked += 1;
+                if back.and_then(|s| s.to_nix()) != v.to_nix() { bad.push(format!("{v:?} is displayed as `{shown}`, which parses back to {back:?}")); }
+            }
+        } }
+        for (v, num) in [(S::Hangup, 1), (S::Interrupt, 2), (S::Quit, 3), (S::ForceStop, 9), (S::User1, 10), (S::User2, 12), (S::Terminate, 15)] {
+            if v.to_nix().map(|x| x as i32) != Some(num) { bad.push(format!("{v:?} does not map to POSIX number {num}")); }
+            let shown = v.to_string(); if S::from_str(&shown).ok() != Some(v) { bad.push(format!("{v:?} is displayed as `{shown}`, which does not parse back to it")); }
+        }
+        for (text, want) in [("CTRL-CLOSE", S::Hangup), ("ctrl+close", S::Hangup), ("Close", S::Hangup), ("CTRL-BREAK", S::Terminate), ("ctrl+break", S::Terminate), ("break", S::Terminate),
+                             ("CTRL-C", S::Interrupt), ("ctrl+c", S::Interrupt), ("c", S::Interrupt), ("KILL", S::ForceStop), ("sigkill", S::ForceStop), ("FORCE-STOP", S::ForceStop), ("stop", S::ForceStop)] {
+            let got = S::from_str(text).ok(); n_checked += 1;
+            if got != Some(want) { bad.push(format!("control name `{text}` parses to {got:?}, documented: {want:?}")); }
+        }
+        if bad.is_empty() { println!("RESULT names ok ({n_checked} spellings)"); } else { println!("RESULT names VIOLATED {}", bad[..bad.len().min(4)].join("; ")); std::process::exit(1); }
+        return;
+    }
     if bad.is_empty() { println!("RESULT nix_table ok ({valid} signals)"); } else { println!("RESULT nix_table VIOLATED {}", bad.join("; ")); std::process::exit(1); }
 }
